@@ -5,6 +5,7 @@ cache later serves.  Model: `Grevm/Model/Cache.lean`.
 import Grevm.Model.Cache
 import Grevm.Lemmas.Cache
 import Grevm.Model.AccountFill
+import Grevm.Lemmas.AcctState
 
 namespace Grevm.Cache
 
@@ -101,3 +102,173 @@ theorem blind_publish_violates :
 example : (run (0 : Nat) [.publish, .commit 7, .publish]).entry = some 7 := by decide
 
 end Grevm.AccountFill
+
+/-! ### the account-status machine: grevm's caches refine revm's `CacheAccount` -/
+
+namespace Grevm.Acct
+
+/-- One operation: if grevm's code does not panic (`G.step` answers), revm's `State` produces the
+    same output — the same `TransitionAccount` (info, status, previous info, previous status,
+    storage-was-destroyed flag), the same account info, the same slot value, the same drained amount
+    — and the two states stay related. -/
+theorem step_refines {db : Db} (hdb : db.Ok) {g : G} {s : S} (hR : R db g s) (op : Op)
+    (hpre : op.Pre) {g' : G} {o : Out} (hstep : G.step db g op = some (g', o)) :
+    ∃ s', S.step db s op = (s', o) ∧ R db g' s' := by
+  cases op with
+  | basic =>
+    obtain ⟨g1, s1, o1, h1, h2, h3⟩ := sim_basic hdb hR
+    rw [h1] at hstep; cases hstep; exact ⟨s1, h2, h3⟩
+  | read k =>
+    obtain ⟨g1, s1, v, h1, h2, h3⟩ := sim_read hR k
+    rw [h1] at hstep; cases hstep; exact ⟨s1, h2, h3⟩
+  | selfdestruct =>
+    cases hga : g.acct with
+    | none => simp [G.step, hga] at hstep
+    | some ga =>
+      simp [G.step, hga] at hstep
+      obtain ⟨rfl, rfl⟩ := hstep
+      obtain ⟨ht, hR'⟩ := sim_selfdestruct hdb hR ga hga
+      exact ⟨_, by simp [S.step, ht], hR'⟩
+  | create i c =>
+    cases hga : g.acct with
+    | none => simp [G.step, hga] at hstep
+    | some ga =>
+      simp [G.step, hga] at hstep
+      obtain ⟨rfl, rfl⟩ := hstep
+      obtain ⟨ht, hR'⟩ := sim_create hdb hR ga hga i c
+      exact ⟨_, by simp [S.step, ht], hR'⟩
+  | touchEmpty =>
+    cases hga : g.acct with
+    | none => simp [G.step, hga] at hstep
+    | some ga =>
+      simp [G.step, hga] at hstep
+      obtain ⟨rfl, rfl⟩ := hstep
+      obtain ⟨ht, hR'⟩ := sim_touchEmpty hdb hR ga hga
+      exact ⟨_, by simp [S.step, ht], hR'⟩
+  | change i c =>
+    cases hga : g.acct with
+    | none => simp [G.step, hga] at hstep
+    | some ga =>
+      simp [G.step, hga] at hstep
+      obtain ⟨rfl, rfl⟩ := hstep
+      obtain ⟨ht, hR'⟩ := sim_change_loaded hdb hR i c
+      rw [loaded_of_some hga] at ht hR'
+      exact ⟨_, by simp [S.step, ht], hR'⟩
+  | increment amt =>
+    have hamt : amt ≠ 0 := hpre
+    simp [G.step, hamt] at hstep
+    obtain ⟨rfl, rfl⟩ := hstep
+    have hinfo := hR.info
+    have hne : ({ (Option.getD (g.loaded db).info Info.zero) with
+        balance := satAdd ((g.loaded db).info.getD Info.zero).balance amt } : Info).isEmpty = false := by
+      have := satAdd_pos ((g.loaded db).info.getD Info.zero).balance amt hamt
+      simp [Info.isEmpty, this]
+    obtain ⟨ht, hR'⟩ := sim_change_loaded hdb hR
+      { (Option.getD (g.loaded db).info Info.zero) with
+        balance := satAdd ((g.loaded db).info.getD Info.zero).balance amt } Slots.none
+    have hext : g.slots.extend Slots.none = g.slots := by
+      funext k; simp [Slots.extend, Slots.none]
+    rw [hext] at hR'
+    refine ⟨_, ?_, hR'⟩
+    simp only [S.step, SAcct.applyTouched, ← hinfo, hne]
+    simp [ht]
+  | drain =>
+    simp [G.step] at hstep
+    obtain ⟨rfl, rfl⟩ := hstep
+    have hinfo := hR.info
+    obtain ⟨ht, hR'⟩ := sim_applyTouched hdb hR
+      { (Option.getD (g.loaded db).info Info.zero) with balance := 0 }
+    refine ⟨_, ?_, hR'⟩
+    simp only [S.step, ← hinfo]
+    simp [ht]
+
+/-- **acct_machine_refines_revm.** For every backing store that meets revm's own assumption (no
+    storage under an account without nonce and code) and EVERY history of loads, slot reads,
+    committed journal states (selfdestruct, create, empty-touch, change), balance increments
+    (non-zero, as documented) and drains on which grevm's code does not panic, revm's `State`
+    produces exactly the same outputs — transitions (which is what the bundle is built from),
+    account infos, slot values, drained amounts — and the final states are related. -/
+theorem acct_machine_refines_revm {db : Db} (hdb : db.Ok) (ops : List Op) :
+    ∀ {g : G} {s : S}, R db g s → (∀ op ∈ ops, op.Pre) →
+    ∀ {g' : G} {outs : List Out}, G.run db g ops = some (g', outs) →
+      (S.run db s ops).2 = outs ∧ R db g' (S.run db s ops).1 := by
+  induction ops with
+  | nil => intro g s hR _ g' outs h; simp [G.run] at h; obtain ⟨rfl, rfl⟩ := h; exact ⟨rfl, hR⟩
+  | cons op rest ih =>
+    intro g s hR hpre g' outs h
+    simp only [G.run] at h
+    cases hs : G.step db g op with
+    | none => simp [hs] at h
+    | some p =>
+      obtain ⟨g1, o⟩ := p
+      simp only [hs] at h
+      cases hr : G.run db g1 rest with
+      | none => simp [hr] at h
+      | some q =>
+        obtain ⟨g2, os⟩ := q
+        simp only [hr] at h
+        cases h
+        obtain ⟨s1, hs1, hR1⟩ := step_refines hdb hR op (hpre op (by simp)) hs
+        obtain ⟨ho, hR2⟩ := ih hR1 (fun x hx => hpre x (by simp [hx])) hr
+        simp only [S.run, hs1]
+        exact ⟨by rw [ho], hR2⟩
+
+/-- From the empty caches. -/
+theorem acct_history_refines_revm {db : Db} (hdb : db.Ok) (ops : List Op) (hpre : ∀ op ∈ ops, op.Pre)
+    {g' : G} {outs : List Out} (h : G.run db G.init ops = some (g', outs)) :
+    (S.run db S.init ops).2 = outs ∧ R db g' (S.run db S.init ops).1 :=
+  acct_machine_refines_revm hdb ops (R_init db hdb) hpre h
+
+/-- **reads_equal_after_any_history.** After any such history every slot and the account read
+    through grevm's caches equal what revm's `State` serves. -/
+theorem reads_equal_after_any_history {db : Db} (hdb : db.Ok) (ops : List Op)
+    (hpre : ∀ op ∈ ops, op.Pre) {g' : G} {outs : List Out}
+    (h : G.run db G.init ops = some (g', outs)) :
+    (∀ k, g'.readVal db k = (S.run db S.init ops).1.readVal db k) ∧
+    (g'.loaded db).info = ((S.run db S.init ops).1.loaded db).info ∧
+    (g'.loaded db).status = ((S.run db S.init ops).1.loaded db).status :=
+  let r := (acct_history_refines_revm hdb ops hpre h).2
+  ⟨r.reads, r.info, r.status⟩
+
+/-- **storage_known_is_monotone.** No status transition of a committed account makes a
+    storage-known account storage-unknown again (so a zero served for an unread slot is never
+    retracted in favour of the database). -/
+theorem storage_known_is_monotone (st : Status) (h : st.known = true) (b : Bool) :
+    (st.onChanged b).known = true ∧ st.onCreated.known = true ∧
+    st.onSelfdestructed.known = true ∧ st.onTouchedEmpty.known = true :=
+  ⟨known_mono_changed st b h, known_created st, known_selfdestructed st, known_touched st⟩
+
+/-- **destroyed_account_serves_zero.** Right after a selfdestruct or an empty-touch is committed
+    every slot reads zero on the grevm side, whatever was cached or is in the database. -/
+theorem destroyed_account_serves_zero (db : Db) (g g' : G) (o : Out) (op : Op)
+    (hop : op = .selfdestruct ∨ op = .touchEmpty) (h : G.step db g op = some (g', o)) (k : Nat) :
+    g'.readVal db k = 0 := by
+  rcases hop with rfl | rfl <;>
+  · cases hga : g.acct with
+    | none => simp [G.step, hga] at h
+    | some ga =>
+      simp [G.step, hga] at h
+      obtain ⟨rfl, _⟩ := h
+      simp [G.readVal, Slots.none, G.known, GAcct.selfdestruct, GAcct.touchEmpty]
+
+/-- The precondition on increments is needed: a zero increment of an existing empty account is
+    skipped by grevm and committed as a touch (which deletes the account) by revm's default
+    `increment_balances`. Callers pass non-zero amounts. -/
+theorem zero_increment_differs :
+    let db : Db := ⟨some Info.zero, fun _ => 0⟩
+    (G.run db G.init [.increment 0, .basic]).map (·.2) = some [.trans none, .info (some Info.zero)] ∧
+    (S.run db S.init [.increment 0, .basic]).2 ≠ [.trans none, .info (some Info.zero)] := by
+  decide
+
+/-- Non-vacuity: a history with a destroy, a re-creation with a slot, a change, reads, an
+    increment and a drain runs on the grevm side and both sides answer alike. -/
+example :
+    let db : Db := ⟨some ⟨1, 5, 2⟩, fun k => if k = 0 then 40 else 0⟩
+    let ops : List Op := [.basic, .read 0, .selfdestruct, .read 0,
+      .create ⟨1, 0, 3⟩ (fun k => if k = 1 then some 9 else none), .read 1, .read 0,
+      .change ⟨2, 7, 3⟩ (fun k => if k = 0 then some 4 else none), .read 0, .increment 3, .drain, .basic]
+    (G.run db G.init ops).map (·.2) = some (S.run db S.init ops).2 ∧
+    ((G.run db G.init ops).map (·.2)).isSome = true := by
+  decide
+
+end Grevm.Acct
